@@ -17,23 +17,43 @@ def free_port():
     s.close()
     return p
 
+class NoResponse(Exception):
+    """the server did not answer within the (generous) wall-clock allowance: says nothing about the property"""
+
 def http_get(port, target, timeout=10):
-    """send a raw GET request line (target verbatim, bytes); returns (status or None, body bytes)"""
+    """send a raw GET request line (target verbatim, bytes); returns (status or None, body bytes).
+    A silent server is never turned into a verdict here: on a loaded machine an answer can take long, so a time-out is
+    retried with 30 s and 120 s, and if nothing at all arrives NoResponse is raised (the caller reports the case as
+    inconclusive unless the server process has exited)."""
     if isinstance(target, str):
         target = target.encode("utf-8", "surrogateescape")
-    s = socket.create_connection(("127.0.0.1", port), timeout=timeout)
-    try:
-        s.sendall(b"GET " + target + b" HTTP/1.1\r\nHost: localhost\r\nConnection: close\r\n\r\n")
+    data = b""
+    for attempt_timeout in (timeout, 30, 120):
         data = b""
-        while True:
-            chunk = s.recv(65536)
-            if not chunk:
-                break
-            data += chunk
-    except (socket.timeout, ConnectionError):
-        data = data if "data" in dir() else b""
-    finally:
-        s.close()
+        timed_out = False
+        try:
+            s = socket.create_connection(("127.0.0.1", port), timeout=attempt_timeout)
+        except (socket.timeout, ConnectionRefusedError, OSError):
+            timed_out = True
+            s = None
+        if s is not None:
+            try:
+                s.sendall(b"GET " + target + b" HTTP/1.1\r\nHost: localhost\r\nConnection: close\r\n\r\n")
+                while True:
+                    chunk = s.recv(65536)
+                    if not chunk:
+                        break
+                    data += chunk
+            except socket.timeout:
+                timed_out = True
+            except ConnectionError:
+                pass
+            finally:
+                s.close()
+        if not (timed_out and not data.startswith(b"HTTP/")):
+            break
+    else:
+        raise NoResponse("no answer to %r within 10 + 30 + 120 s" % target[:80])
     if not data.startswith(b"HTTP/"):
         return None, data
     head, _, body = data.partition(b"\r\n\r\n")
@@ -327,6 +347,11 @@ def one_case(ctx, case):
             bad("server-exited", "the server process exited with status %s" % server.returncode)
         if stats["sample"] is None:
             stats["sample"] = {"history": steps, "cache_entries": len(cache), "history_files": len(histories), "requests": stats["evaluations"]}
+    except NoResponse as e:
+        if server is not None and server.poll() is not None:
+            bad("server-exited", "the server process exited with status %s (%s)" % (server.returncode, e))
+        else:
+            stats["problems"].append("case %d: %s (machine too loaded to judge; not a verdict)" % (case, e))
     except Exception as e:
         stats["problems"].append("case %d: driver error %r" % (case, e))
     finally:
